@@ -110,7 +110,7 @@ package multiplex
 // Every exit has either seen doneC closed or has called Close itself; the connection table
 // lock is never held across queueing or across Close (Close takes it exclusively).
 //@ func mux.reader
-//@   props C07 C10 C11
+//@   props C07 C10 C11 C16
 //@   requires wfMux(m) && !held(m.connLock) && rheld(m.connLock) == 0
 //@   modifies @writes
 //@   ensures [unlocked] !held(m.connLock) && rheld(m.connLock) == 0
